@@ -133,6 +133,37 @@ def pipeline(rep, cov, tier, seed, rng, text, msgs, label, probe_key=None):
                 reqs.append(f"gen {c['key']} {rng.below(1 << 40)} {(2, 4, 0, 1, 7)[k % 5]} {smp}")
                 meta.append(c)
         gen = d.ask_many(reqs)
+        # the size guard the generator compiled into each new reader against the interval the Lean model computes (C09's obligation,
+        # here for programs nobody has written): a valid encoding must never fall outside the guard
+        import c09
+        keys = [c for c in mine if "tokens" in c]
+        bnds = d.ask_many([f"bounds {c['key']}" for c in keys])
+        n_guard = 0
+        for c, bd in zip(keys, bnds):
+            fpath = os.path.join(S, "wow_world_messages/src/world/vanilla", c["name"].lower() + ".rs")
+            mb = re.match(r"lo=(\d+) hi=(\w+) fixed=(\w+)", bd)
+            if not os.path.exists(fpath) or not mb:
+                continue
+            mg = c09.GUARD.search(open(fpath).read())
+            if not mg:
+                continue
+            n_guard += 1
+            lo = int(mb.group(1))
+            hi = None if mb.group(2) == "inf" else int(mb.group(2))
+            cap = c09.direction_cap("vanilla", c["kind"])
+            hi_c = cap if hi is None else min(hi, cap)
+            if mg.group(2):
+                glo = ghi = int(mg.group(2))
+            elif mg.group(3):
+                glo, ghi = int(mg.group(3)), int(mg.group(4))
+            else:
+                glo, ghi = 0, int(mg.group(5))
+            if glo > lo or ghi < hi_c:
+                ptxt = text[text.find(c["name"]):]
+                ptxt = ptxt[:ptxt.find("versions")]
+                rep.violation(probe_key or f"C07/size-guard/{c['name']}", f"generated program {c['name']}: the emitted reader only accepts bodies of {glo}..={ghi} bytes, the definition allows {lo}..{hi_c}",
+                              {"program": c["name"], "programs": prog_path, "definition": ptxt[:1500], "guard": [glo, ghi], "model": [lo, hi], "emitted_file": fpath.replace(S + "/", "")}, no_input=True)
+        cov["size_guards_compared"] = n_guard
         d.close()
         hreq, hmeta = [], []
         seen = set()
@@ -184,6 +215,8 @@ def run(tier, seed):
     nprog = 24 if tier == "quick" else 160
     while True:
         text, msgs = proggen.generate(rng, nprog, avoid=AVOID)
+        stext, smsgs = proggen.systematic(rng, nprog)
+        text, msgs = text + "\n" + stext, msgs + smsgs
         if not (set(re.findall(r"\b[A-Z]{4,5}\b", text)) & KEYWORDS):
             break
     cov = {"evaluations": 0, "distinct_nontrivial": 0, "obligations": po["obligations"], "discharged": po["discharged"], "theorems": po["theorems"],
